@@ -1212,6 +1212,15 @@ class DataFrameSchema(Generic[TDataObject], BaseSchema):
                 if isinstance(new_schema.index, MultiIndex)
                 else {new_schema.index.name: new_schema.index}
             )
+            # as DataFrame.reset_index: a level cannot be inserted under the
+            # name of an existing column
+            already_columns = [
+                col for col in additional_columns if col in new_schema.columns
+            ]
+            if already_columns:
+                raise errors.SchemaInitError(
+                    f"Keys {already_columns} already found in schema columns!"
+                )
             new_schema = new_schema.add_columns(
                 {
                     k: Column(
